@@ -337,13 +337,17 @@ def _check(case, loc, idx, obs, res):
             V("exception-not-propagated", got=obs["exc_type"], detail={"tb": obs["tb"]})
     elif fired and kind in ("kbd_off", "kbd_n"):
         if obs["exc_type"] is not None:
-            if obs["exc_is_injected"] and loc in ("writer", "h5", "h5setup"):
-                # the interrupt landed outside the loop's interrupt handler (final frame write or
-                # set-up writes) and propagates like any other exception: an error stop.
+            if obs["exc_is_injected"] and loc == "h5setup":
+                # the interrupt landed in the set-up writes, before step 0 (outside the statement): it propagates like any other
+                # exception, an error stop.
                 propagated_interrupt = True
                 res.count("interrupt_propagated_as_exception")
             else:
-                V("cancel-raises", got=obs["exc_type"], detail={"tb": obs["tb"]})
+                # a cancellation in the update or in the frame writer of any step - the final one included - is a cancellation:
+                # nothing propagates, the frames written so far are returned (D37)
+                if obs["exc_is_injected"] and loc in ("writer", "h5"):
+                    propagated_interrupt = True  # judge the file as for a stop that wrote nothing more
+                V("cancel-raises", got=obs["exc_type"], where=loc, detail={"tb": obs["tb"]})
         elif stage == "thermal" and loc == "update":
             if sol is not None:
                 V("cancel-in-thermal-returns-solution")
@@ -359,7 +363,9 @@ def _check(case, loc, idx, obs, res):
             V("unexpected-exception", got=obs["exc_type"], detail={"tb": obs["tb"]})
         elif sol is None:
             V("no-solution-returned")
-    if kind == "kbd_n" and fired and obs["prompts"] != 1 and not propagated_interrupt:
+    in_final_frame = loc in ("writer", "h5") and (idx if loc == "writer" else obs.get("writer_call_of_fault", 0)) == len(L) - 1 and N % k != 0
+    if kind == "kbd_n" and fired and obs["prompts"] != 1 and not propagated_interrupt and not (in_final_frame and obs["prompts"] == 0):
+        # (while the final frame is written there is nothing left to resume: no question is asked)
         V("prompt-count", prompts=obs["prompts"])
 
     # ---- frames --------------------------------------------------------------------------
